@@ -1493,8 +1493,14 @@ class Interp:
                 self.bind(st, fr, p["pat"], v)
         res = self.ev(fr, body.thir["root"], st)
         paths = []
+
+        def mk(s, kind, v):
+            p = Path(tuple(s.conds), tuple(s.events), kind, v)
+            envd2 = s.envs.get(fr.uid, {})
+            p.env = {k: val for k, val in envd2.items() if isinstance(k, str) and k.startswith("$p")}
+            return p
         for (s, v) in res:
-            paths.append(Path(tuple(s.conds), tuple(s.events), "ret", v))
+            paths.append(mk(s, "ret", v))
         for (s, kind, v) in fr.done:
-            paths.append(Path(tuple(s.conds), tuple(s.events), kind, v))
+            paths.append(mk(s, kind, v))
         return paths
